@@ -67,7 +67,7 @@ Definition cls_eqb (a b : cls) : bool :=
 (** functions the statements before a guard may call: they only read *)
 Definition pure_pre : list string :=
   ["GovernancePre"; "governancePre"; "GetObject"; "DappKey"; "CrossInvoke:GetMasterRule"; "Unmarshal"; "HexDecodeString"; "Caller";
-   "checkNameAvailable"; "checkBxhAddress"; "checkResolverAddress"].
+   "checkNameAvailable"; "checkBxhAddress"; "checkResolverAddress"; "isAvailableAdmin"].
 
 Definition chain_scoped (impl : string) : bool := mem_str impl ["AppchainManager"; "ServiceManager"; "RuleManager"].
 
@@ -104,7 +104,7 @@ Inductive icls := I (c : cls) | Defect (n : N) (c : cls).
 
 Definition intended : list (string * string * icls) :=
   [
-   ("InterchainManager", "DeleteInterchain", Defect 10 (Internal []));
+   ("InterchainManager", "DeleteInterchain", Defect 10 (Internal ["ServiceMgrContractAddr"; "AppchainMgrContractAddr"]));
    ("InterchainManager", "GetAllServiceIDs", I Query);
    ("InterchainManager", "GetBitXHubID", I Query);
    ("InterchainManager", "GetIBTPByID", I Query);
